@@ -272,6 +272,10 @@ type Scenario struct {
 	CropCols   []OutCol
 
 	ExtraArgs []string // extra key=value tokens on the batch line
+	// SessionWarmup: a sister project (own fertiliser table with other contents) is run first in the same session (C10, 10 %)
+	SessionWarmup bool `json:",omitempty"`
+	// SoilClassicCols: the csv soil file keeps the columns of the classic file next to the documented ones (forced for one project of a batch session)
+	SoilClassicCols bool `json:",omitempty"`
 	// fault injection for C11: the polygon file may name another soil id / field id than the soil / rotation files know
 	PolySID     string
 	PolyFieldID string
@@ -411,6 +415,32 @@ func (sc *Scenario) fertRowOf(name string) *FertRow {
 		}
 	}
 	return fertRow(name)
+}
+
+func (sc *Scenario) ownFertRow(name string) *FertRow {
+	for i := range sc.OwnFertRows {
+		if sc.OwnFertRows[i].Name == name {
+			return &sc.OwnFertRows[i]
+		}
+	}
+	return nil
+}
+
+// redefineFertRow gives the project a fertiliser table of its own (parameter folder of its own) in which one fertiliser the
+// schedule uses has other contents than in the shipped table: the table of the run's own parameter folder is the one that counts
+func (sc *Scenario) redefineFertRow(rf *Rng) bool {
+	if len(sc.Fert) == 0 {
+		return false
+	}
+	base := sc.Fert[rf.Intn(len(sc.Fert))].Type
+	if sc.ownFertRow(base) != nil || fertRow(base) == nil {
+		return false
+	}
+	row := FertRow{Name: base, Ntot: float64(rf.Range(30, 900)) / 100, Ndir: float64(rf.Range(5, 95)) / 100, Nfst: float64(rf.Range(5, 60)) / 100,
+		Nslo: float64(rf.Range(5, 40)) / 100, NH4: float64(rf.Range(0, 100)) / 100, Loss: float64(rf.Range(0, 30)) / 100}
+	sc.OwnFertRows = append(sc.OwnFertRows, row)
+	sc.OwnFertFront = append(sc.OwnFertFront, rf.Bool(0.5))
+	return true
 }
 
 func fertRow(name string) *FertRow {
@@ -1074,6 +1104,16 @@ func genSoil(sc *Scenario, r *Rng, p Profile) {
 			h.WP = r.Range(2, 35)
 			h.FC = r.Range(h.WP+2, mini(h.WP+30, 60))
 			h.PS = r.Range(h.FC, mini(h.FC+25, 75))
+			// 10 % of the mineral horizons of a csv soil file with explicit capacities: compacted till / dense gravelly subsoil, given
+			// with its measured density of 2.0 - 2.4 g/cm3 and the small pore volume that goes with it (pore volume = 1 - density /
+			// 2.65, so the water content never exceeds the pore space the density leaves); the density classes end at 1.85, and
+			// the heat-diffusion number of the soil temperature scheme is largest here
+			if rd := NewRng(mix(mix(sc.Seed, uint64(sc.Index)), uint64(2100+b))); s.CSV && h.Texture[0] != 'H' && rd.Bool(0.1) {
+				h.PS = rd.Range(8, 24)
+				h.WP = rd.Range(2, h.PS-6)
+				h.FC = rd.Range(h.WP+2, h.PS)
+				h.BD = math.Floor((2.65*(1-float64(h.PS)/100)-float64(rd.Range(0, 5))/100)*100) / 100
+			}
 		case 2:
 			// pore volume must be given and not below the PTF field capacity
 			fc := ptfFC(sc.PTF, h.Corg, float64(h.Clay), float64(h.Silt), float64(h.Sand))
@@ -1676,6 +1716,13 @@ func genEvents(sc *Scenario, r *Rng, p Profile) {
 				sc.Fert[i].Type = sc.OwnFertRows[rf.Intn(len(sc.OwnFertRows))].Name
 			}
 		}
+	}
+	if rw := NewRng(mix(mix(sc.Seed, uint64(sc.Index)), 1014)); sc.Prop == "C10" && rw.Bool(0.1) {
+		sc.SessionWarmup = true
+	}
+	// a further 8 % of the C10 schedules: a table of the project's own in which a scheduled (shipped) fertiliser has other contents
+	if rr := NewRng(mix(mix(sc.Seed, uint64(sc.Index)), 1012)); sc.Prop == "C10" && rr.Bool(0.08) {
+		sc.redefineFertRow(rr)
 	}
 	// tillage: only in fallow windows (a tillage between sowing and harvest is a reported input error)
 	ws := sc.fallowWindows()
